@@ -1,7 +1,7 @@
 (* C10 — property theorems only.  Each is closed by `exact <lemma>` and followed by
    Print Assumptions; the check re-compiles this file on every run. *)
 From Coq Require Import List NArith Bool.
-From MW Require Import C10.Regex C10.Tags C10.Gen_rules C10.Model C10.Tiles C10.Proofs.
+From MW Require Import C10.Regex C10.Tags C10.Gen_rules C10.Model C10.Tiles C10.Proofs C10.ProofsWidth.
 Import ListNotations.
 Local Open Scope N_scope.
 
@@ -32,6 +32,41 @@ Theorem C10_tiling_consequences : forall s l, scan s = F_done l ->
   /\ (~ In EBAD s' -> contig 0 (spans l) (length s')).
 Proof. exact scan_consequences. Qed.
 Print Assumptions C10_tiling_consequences.
+
+(* FIELD WIDTHS.  The real scanner keeps (type, start, len) in `int`s and indexes its token vector with `int`; the model
+   uses unbounded naturals.  For every text: there are at most as many tokens as code points before the first NUL, every
+   token is non-empty and ends inside the text.  Hence with fewer than 2^31 = 2147483648 code points no start, length,
+   end offset or token index exceeds INT_MAX (the assumption "int overflow is not modelled" needs nothing more). *)
+Theorem C10_fields_bounded : forall s l, scan s = F_done l ->
+  let n := length (before_nul s) in
+  (length l <= n)%nat
+  /\ forall t, In t l -> (0 < tlen t)%nat /\ (tstart t + tlen t <= n)%nat.
+Proof. exact scan_fields_bounded. Qed.
+Print Assumptions C10_fields_bounded.
+
+Theorem C10_fields_fit_int : forall s l, scan s = F_done l ->
+  (N.of_nat (length s) < 2147483648)%N ->
+  (N.of_nat (length l) < 2147483648)%N
+  /\ forall t, In t l -> (N.of_nat (tstart t) < 2147483648 /\ N.of_nat (tlen t) < 2147483648 /\ N.of_nat (tstart t + tlen t) < 2147483648)%N.
+Proof. exact scan_fields_fit_int. Qed.
+Print Assumptions C10_fields_fit_int.
+
+(* ... and nothing NARROWER is justified: on a text without U+EBAD the token lengths add up to the length of the text
+   (before the first NUL), so if every length were at most W, k tokens could cover at most k * W code points.  A single
+   lexeme of more than W code points (one token: C10_long_lexeme_example) cannot be represented with lengths <= W. *)
+Theorem C10_lengths_add_up : forall s l, scan s = F_done l -> ~ In EBAD (before_nul s) ->
+  list_sum (map tlen l) = length (before_nul s).
+Proof. exact scan_lengths_add_up. Qed.
+Print Assumptions C10_lengths_add_up.
+
+Theorem C10_narrow_length_field_loses_text : forall s l W, scan s = F_done l -> ~ In EBAD (before_nul s) ->
+  (forall t, In t l -> (tlen t <= W)%nat) -> (length (before_nul s) <= length l * W)%nat.
+Proof. exact scan_narrow_fields_lose_text. Qed.
+Print Assumptions C10_narrow_length_field_loses_text.
+
+Example C10_long_lexeme_example : scan (repeat 97 300) = F_done [Tok t_text 0 300].
+Proof. exact long_word_one_token. Qed.
+Print Assumptions C10_long_lexeme_example.
 
 (* Obligations on the GENERATED rule table (re-proved by vm_compute whenever _uscan.re changes):
    every rule is non-nullable and either avoids NUL or is a single-character class; the U+EBAD rule is
